@@ -43,9 +43,12 @@ class PyCodeMapper(LokiStringifyMapper):
         return 'True' if bool(expr.value) else 'False'
 
     def map_float_literal(self, expr, enclosing_prec, *args, **kwargs):
-        return str(expr.value)
+        # A Fortran double-precision exponent letter (1.5d0) is not valid in Python,
+        # where every float literal is a double already
+        return str(expr.value).lower().replace('d', 'e')
 
-    map_int_literal = map_float_literal
+    def map_int_literal(self, expr, enclosing_prec, *args, **kwargs):
+        return str(expr.value)
 
     def map_cast(self, expr, enclosing_prec, *args, **kwargs):
         _type = SymbolAttributes(BasicType.from_fortran_type(expr.name), kind=expr.kind)
